@@ -30,7 +30,15 @@ META = dict(
 )
 
 printable = st.characters(blacklist_categories=("Cc", "Cs", "Zl", "Zp", "Cf", "Co", "Cn"))
-filename = st.one_of(st.text(printable, max_size=12),
+import unicodedata  # noqa: E402
+
+# printable characters whose compatibility decomposition contains header-special ASCII (fullwidth ';', '"', ',' ...):
+# the ASCII fallback name is built by NFKD transliteration, so these are the inputs that can smuggle a separator in
+COMPAT_SPECIALS = [chr(c) for c in range(0x80, 0x30000)
+                   if unicodedata.category(chr(c))[0] not in "CZ"
+                   and any(x in unicodedata.normalize("NFKD", chr(c)) for x in ' ;:"\',\\/=()<>@[]?{}\r\n\t')]
+compat_name = st.lists(st.one_of(st.sampled_from(COMPAT_SPECIALS), st.sampled_from(list("abcXYZ 12"))), min_size=1, max_size=8).map("".join)
+filename = st.one_of(st.text(printable, max_size=12), compat_name,
                      st.sampled_from(["", " ", "Über Bücher", "a;b", 'x"y', "日本語", "a,b c", "it's", "résumé.v2", "..", "%41", "a/b", "a\\b", "=?", "😀 book"]))
 result = st.one_of(
     st.none(),
